@@ -54,7 +54,14 @@ cd "$(dirname "$0")"
   echo "are (C06_m10), every named member is first looked up as a method (C06_m11), includeIfExists and include ask the Set on"
   echo "every call (C09_m11, C16_m11), parseCatch keeps the error variable (C13_m11), ParseInto parses every argument (C14_m11),"
   echo "Resolve is identifier lookup (C18_m10), the OS loader answers from exactly one os.Stat (C19_m11). After strengthening,"
-  echo "all 220 are reported by the check of their own property."
+  echo "all 220 were reported by the check of their own property. A seventh round (\`_m12\`, \`_m13\`): 29 of 40 reported at"
+  echo "once; eight of the eleven misses were missing property tags or units not yet listed under the property (the obligation"
+  echo "failed under another property: C02_m13, C03_m13, C08_m13, C09_m12, C11_m13, C17_m13, C20_m13, and C08_m13/C20_m12 showed"
+  echo "up as supported-subset once the ledger knew the unit), the others led to new clauses: getTypeString never panics"
+  echo "(C12_m13), the ranged-over expression is evaluated before the loop scope is opened (C18_m12), a func(Arguments) value is"
+  echo "always called with the piped value (C18_m13), a return statement has a value (C20_m12). After strengthening, all 260 are"
+  echo "reported by the check of their own property (two of them have meanwhile become harmless through later fixes and are"
+  echo "marked so in the table)."
   echo
   echo "# Part II — the round-0 plan (kept for reference; Part I wins where they differ)"
   echo
